@@ -63,6 +63,14 @@ def play(spec):
     for si, (k, newb) in enumerate(spec[1]):
         if bad:
             break
+        if newb == 'rename':
+            # an interface that is already wired into the graph receives its final name later (dynamically generated
+            # interfaces): the specifications that hold it as a key must keep finding it
+            s = ifs[k % len(ifs)]
+            s.__name__ = common.uname('IRenamed')
+            bad = checkall(specs, 'after step %d (renaming an interface to %s)' % (si, s.__name__))
+            n += len(specs) ** 2
+            continue
         s = movable[k % len(movable)]
         cands = [x for x in ifs + impl if not any(s is y for y in reach(x))]      # keep the graph acyclic
         nb = []
@@ -85,8 +93,10 @@ def play(spec):
 def random_spec(rnd):
     n = rnd.randint(3, 5)
     shape = common.random_shape(rnd, n, 2)
-    steps = tuple((rnd.randrange(20), tuple(rnd.randrange(20) for _ in range(rnd.randint(0, 2)))) for _ in range(rnd.randint(1, 4)))
-    return (shape, steps)
+    steps = [(rnd.randrange(20), tuple(rnd.randrange(20) for _ in range(rnd.randint(0, 2)))) for _ in range(rnd.randint(1, 4))]
+    if rnd.random() < 0.35:
+        steps.insert(rnd.randrange(len(steps) + 1), (rnd.randrange(20), 'rename'))
+    return (shape, tuple(steps))
 
 
 def replay(spec):
@@ -99,7 +109,7 @@ def replay(spec):
 def run(ctx):
     ctx.rule = ('random mixed graphs: interface DAG <=5, class specifications of a '
                 '3-deep class chain and an unrelated class, an instance declaration, two plain Declarations; <=4 acyclic '
-                '__bases__ reassignments at any node; after each, isOrExtends/extends (strict and not)/__sro__ of every '
+                '__bases__ reassignments at any node, in a third of the histories one interface is renamed (__name__ assigned) on the way; after each, isOrExtends/extends (strict and not)/__sro__ of every '
                 'specification against graph reachability computed independently; distinct = (graph, history)')
     ctx.bounds = 'interfaces<=7, history<=4'
     trials = 300 if ctx.tier == 'quick' else 4000
